@@ -299,3 +299,15 @@ func splitSegs(path []byte) []string {
 	}
 	return out
 }
+
+// badSegs lists the (sanitised) segments of a wire path that no file system
+// object can be called: they contain a NUL byte or are longer than 255 bytes.
+func badSegs(path []byte) []string {
+	out := []string{}
+	for _, p := range strings.Split(string(path), "/") {
+		if len(p) > 255 || strings.ContainsRune(p, 0) {
+			out = append(out, sanitize(p))
+		}
+	}
+	return out
+}
